@@ -1258,7 +1258,7 @@ class Exec:
             return self.c.sqrt(a)
         if isinstance(a, (int, float)) and a == 10:
             return self.c.pow10(b)
-        return self.c.func('u_pow', REAL, REAL, REAL)(to_real(a), to_real(b))
+        return self.c.pow(a, b)
 
     def map1(self, f, v, st, kind=None):
         if self.is_arr(v, st):
